@@ -489,16 +489,16 @@ impl Memfs {
                 dst_root.mash(src.path().trim_prefix(src_root.path()))
             };
 
-            // Copying an entry onto itself changes nothing
-            if dst_path == src.path() {
-                continue;
-            }
-
             // Copying onto an existing link writes through to what it points to
             let dst_path = match guard.get_entry(&dst_path) {
                 Some(x) if x.is_symlink() && !src.is_symlink() => x.alt_buf(),
                 _ => dst_path,
             };
+
+            // Copying an entry onto itself changes nothing
+            if dst_path == src.path() {
+                continue;
+            }
 
             // Recreate links if were not following them
             if !cp.follow && src.is_symlink() {
